@@ -111,6 +111,8 @@ pub struct RunStats {
     pub builds: u64,
     pub two_sided_panics: u64,
     pub oob_index_writes: u64,
+    pub operator_ops_attempted: u64,
+    pub operator_ops_supported: u64,
     pub oob_writes_returned_normally: u64,
     pub probes: [u64; N_PROBES],
     /// (state after step) values visited, for the distinct-state measure
@@ -194,6 +196,13 @@ fn digest_op(d: &mut u64, op: &Op) {
             for a in args {
                 fnv128(d, a.0);
             }
+        }
+        Op::Operator { dst, a, b, op } => {
+            fnv(d, 10);
+            fnv(d, *dst as u64);
+            fnv(d, *a as u64);
+            fnv(d, *b as u64);
+            fnv(d, *op as u64);
         }
     }
 }
@@ -583,7 +592,7 @@ impl<'a> Ctx12<'a> {
                     return Err(viol("raw-mismatch", step, *slot, None, None, r, self.model[*slot], "explicit raw_value() disagrees with the reference register".into()));
                 }
             }
-            Op::Restart { .. } | Op::Build { .. } => return Ok(Some("invalid".into())),
+            Op::Restart { .. } | Op::Build { .. } | Op::Operator { .. } => return Ok(Some("invalid".into())),
         }
         Ok(None)
     }
@@ -667,6 +676,8 @@ fn merge_stats(a: &mut RunStats, b: &RunStats) {
     a.builds += b.builds;
     a.two_sided_panics += b.two_sided_panics;
     a.oob_index_writes += b.oob_index_writes;
+    a.operator_ops_attempted += b.operator_ops_attempted;
+    a.operator_ops_supported += b.operator_ops_supported;
     a.oob_writes_returned_normally += b.oob_writes_returned_normally;
     for i in 0..N_PROBES {
         a.probes[i] += b.probes[i];
@@ -997,6 +1008,41 @@ fn run_twin(l: &Layout, e: &Entry, case: &Case) -> Outcome {
                 }
                 if *from_primary {
                     st.probes[18] += 1;
+                }
+            }
+            Op::Operator { dst, a, b, op } => {
+                if *dst >= n || *a >= n || *b >= n || p[*a].is_none() || p[*b].is_none() {
+                    return Outcome::Invalid;
+                }
+                st.operator_ops_attempted += 1;
+                let unary = *op == OP_NOT;
+                let rp = guarded(|| p[*a].as_ref().unwrap().operator(*op, if unary { None } else { Some(p[*b].as_ref().unwrap().as_ref()) }));
+                let rq = guarded(|| q[*a].as_ref().unwrap().operator(*op, if unary { None } else { Some(q[*b].as_ref().unwrap().as_ref()) }));
+                match (rp, rq) {
+                    // the generated type does not implement this operator: nothing happens
+                    (Ok(None), Ok(None)) => {}
+                    (Ok(Some(x)), Ok(Some(y))) => {
+                        st.operator_ops_supported += 1;
+                        shadow[*dst] = guarded(|| x.raw()).unwrap_or(0);
+                        p[*dst] = Some(x);
+                        q[*dst] = Some(y);
+                        changed_since_restart[*dst] = true;
+                        forked[*dst] = true;
+                        st.state_changing_writes += 1;
+                    }
+                    (Err(m), Err(_)) => {
+                        if is_harness(&m) {
+                            return Outcome::Harness(m);
+                        }
+                        st.two_sided_panics += 1;
+                    }
+                    (Err(m), _) | (_, Err(m)) => {
+                        if is_harness(&m) {
+                            return Outcome::Harness(m);
+                        }
+                        vio!("one-sided-panic", k, *a, None, None, 0, 0, format!("an operator panicked on exactly one of x and its restarted replica: {m}"))
+                    }
+                    _ => return Outcome::Harness("HARNESS: operator exists on one lineage only".into()),
                 }
             }
             Op::Build { dst, args } => {
